@@ -131,6 +131,24 @@ func genPkt4(r *Rng, inDomain bool) *dhcpv4.DHCPv4 {
 		if len(v) == 0 && r.Bool() {
 			v = nil
 		}
+		if len(v) > 255 && r.Chance(1, 3) {
+			// long values whose 255-octet instances repeat: one byte throughout, a
+			// 255-periodic pattern, the first instance twice (padding, tables, certificates
+			// with long runs) - a decoder that takes an instance equal to what it has
+			// collected for a duplicate loses data on these (seeded change C01-18)
+			switch r.Intn(3) {
+			case 0:
+				for i := range v {
+					v[i] = v[0]
+				}
+			case 1:
+				for i := 255; i < len(v); i++ {
+					v[i] = v[i-255]
+				}
+			default:
+				copy(v[255:], v[:255])
+			}
+		}
 		p.Options[uint8(code)] = v
 	}
 	if r.Chance(1, 10) {
